@@ -293,15 +293,14 @@ class RandomFromSetCandidateGenerator(CandidateGenerator):
                 configs = self.base_set.copy()
                 self.pos_returned = set(range(self.num_base))
             else:
-                configs, new_pos = zip(
-                    *[
-                        (config, pos)
-                        for pos, config in enumerate(self.base_set)
-                        if not exclusion_list.contains(config)
-                    ]
-                )
-                configs = list(configs)
-                self.pos_returned = set(new_pos)
+                pairs = [
+                    (config, pos)
+                    for pos, config in enumerate(self.base_set)
+                    if not exclusion_list.contains(config)
+                ]
+                # ``pairs`` is empty once all configs in ``base_set`` are excluded
+                configs = [config for config, _ in pairs]
+                self.pos_returned = set(pos for _, pos in pairs)
         else:
             if exclusion_list is None:
                 randset = self.random_state.choice(
